@@ -133,8 +133,58 @@ DefineVar(sc, n, v) == [sc EXCEPT ![Len(sc)] = (n :> v) @@ sc[Len(sc)]]
 Push(sc) == Append(sc, [x \in {} |-> 0])
 Pop(sc) == SubSeq(sc, 1, Len(sc) - 1)
 
+(* ---- strings (characters by position; case maps for ASCII letters only) ---------------- *)
+LowerAlpha == "abcdefghijklmnopqrstuvwxyz"
+UpperAlpha == "ABCDEFGHIJKLMNOPQRSTUVWXYZ"
+Ch(s, i) == SubSeq(s, i, i)
+IdxIn(c, alpha) == IF \E i \in 1..Len(alpha) : Ch(alpha, i) = c THEN CHOOSE i \in 1..Len(alpha) : Ch(alpha, i) = c ELSE 0
+RECURSIVE MapStr(_, _, _)
+MapStr(s, from, to) == IF s = "" THEN ""
+                       ELSE LET c == Ch(s, 1) i == IdxIn(c, from) IN (IF i = 0 THEN c ELSE Ch(to, i)) \o MapStr(SubSeq(s, 2, Len(s)), from, to)
+IsBlank(c) == c \in {" ", "\t", "\n", "\r"}
+RECURSIVE TrimL(_), TrimR(_)
+TrimL(s) == IF s # "" /\ IsBlank(Ch(s, 1)) THEN TrimL(SubSeq(s, 2, Len(s))) ELSE s
+TrimR(s) == IF s # "" /\ IsBlank(Ch(s, Len(s))) THEN TrimR(SubSeq(s, 1, Len(s) - 1)) ELSE s
+StrContains(s, t) == \E i \in 1..(Len(s) - Len(t) + 1) : SubSeq(s, i, i + Len(t) - 1) = t
+FirstAt(s, t) == CHOOSE i \in 1..(Len(s) - Len(t) + 1) : SubSeq(s, i, i + Len(t) - 1) = t /\ \A j \in 1..(i - 1) : SubSeq(s, j, j + Len(t) - 1) # t
+RECURSIVE SplitStr(_, _)
+\* as strings.Split: an empty separator splits into characters; otherwise the pieces between occurrences (n occurrences, n+1 pieces)
+SplitStr(s, sep) == IF sep = "" THEN [i \in 1..Len(s) |-> Ch(s, i)]
+                    ELSE IF ~StrContains(s, sep) THEN <<s>>
+                    ELSE LET i == FirstAt(s, sep) IN <<SubSeq(s, 1, i - 1)>> \o SplitStr(SubSeq(s, i + Len(sep), Len(s)), sep)
+RECURSIVE JoinStrs(_, _, _)
+JoinStrs(parts, sep, i) == IF i > Len(parts) THEN "" ELSE parts[i] \o (IF i < Len(parts) THEN sep ELSE "") \o JoinStrs(parts, sep, i + 1)
+IntStr(n) == IF n < 0 THEN "-" \o ToString(-n) ELSE ToString(n)
+
+(* ---- patterns of match expressions ----------------------------------------------------- *)
+\* MatchPat(p, v, b) = [ok, b]: whether v matches p and the bindings made (b: name -> value).  Bindings made by a
+\* pattern that fails later are dropped with the case's scope: every case starts from the enclosing scopes alone.
+RECURSIVE MatchPat(_, _, _), MatchElems(_, _, _, _), MatchFields(_, _, _, _)
+Bind(b, n, v) == (n :> v) @@ b
+MatchPat(p, v, b) ==
+    CASE p.k = "lit" -> [ok |-> ValEq(p.v, v), b |-> b]
+      [] p.k = "var" -> [ok |-> TRUE, b |-> Bind(b, p.n, v)]
+      [] p.k = "wild" -> [ok |-> TRUE, b |-> b]
+      [] p.k = "arr" ->
+            IF v.k # "arr" THEN [ok |-> FALSE, b |-> b]
+            ELSE IF p.rest = "" /\ Len(v.e) # Len(p.ps) THEN [ok |-> FALSE, b |-> b]
+            ELSE IF p.rest # "" /\ Len(v.e) < Len(p.ps) THEN [ok |-> FALSE, b |-> b]
+            ELSE LET r == MatchElems(p.ps, v.e, b, 1) IN
+                 IF ~r.ok \/ p.rest = "" THEN r
+                 ELSE [ok |-> TRUE, b |-> Bind(r.b, p.rest, VArr(SubSeq(v.e, Len(p.ps) + 1, Len(v.e))))]
+      [] p.k = "obj" ->
+            IF v.k # "obj" THEN [ok |-> FALSE, b |-> b] ELSE MatchFields(p.fs, v, b, 1)
+MatchElems(ps, es, b, i) ==
+    IF i > Len(ps) THEN [ok |-> TRUE, b |-> b]
+    ELSE LET r == MatchPat(ps[i], es[i], b) IN IF ~r.ok THEN r ELSE MatchElems(ps, es, r.b, i + 1)
+MatchFields(fs, o, b, i) ==
+    IF i > Len(fs) THEN [ok |-> TRUE, b |-> b]
+    ELSE IF ~HasKey(o, fs[i].key) THEN [ok |-> FALSE, b |-> b]
+    ELSE IF ~fs[i].hasp THEN MatchFields(fs, o, Bind(b, fs[i].key, GetKey(o, fs[i].key)), i + 1)
+    ELSE LET r == MatchPat(fs[i].p, GetKey(o, fs[i].key), b) IN IF ~r.ok THEN r ELSE MatchFields(fs, o, r.b, i + 1)
+
 (* ---- expressions ---------------------------------------------------------------------- *)
-RECURSIVE Eval(_, _), EvalSeq(_, _, _), EvalFields(_, _, _), ExecBlock(_, _, _, _)
+RECURSIVE Eval(_, _), EvalSeq(_, _, _), EvalFields(_, _, _), ExecBlock(_, _, _, _), EvalCases(_, _, _, _)
 \* A settled future: the outcome of the block, which ran on a snapshot of the scopes visible where it was
 \* spawned.  Blocks communicate with their parent only through await, so the outcome does not depend on
 \* when the block runs and the definition may run it at once.
@@ -187,6 +237,30 @@ Eval(e, sc) ==
             IF ~a.ok THEN a
             ELSE IF a.v.k = "fut" THEN (IF a.v.r.ok THEN Ok(a.v.r.v) ELSE Err(a.v.r.err))
             ELSE IF Dev("VM_AwaitPassesValue") THEN Ok(a.v) ELSE Err("type")
+      [] e.e = "match" ->     \* cases in order; the first whose pattern matches and whose guard holds gives the value; none: null
+            LET v == Eval(e.x, sc) IN IF ~v.ok THEN v ELSE EvalCases(e.cases, v.v, sc, 1)
+      [] e.e = "calln" ->     \* string builtins (arguments evaluated left to right, then checked)
+            LET av == EvalSeq(e.as, sc, 1) IN
+            IF ~av.ok THEN av
+            ELSE LET g == av.v
+                     n == Len(g)
+                     IsS(i) == g[i].k = "str"
+                     IsI(i) == g[i].k = "int" IN
+                 (CASE e.fn = "upper" -> IF n # 1 \/ ~IsS(1) THEN Err("type") ELSE Ok(VStr(MapStr(g[1].v, LowerAlpha, UpperAlpha)))
+                   [] e.fn = "lower" -> IF n # 1 \/ ~IsS(1) THEN Err("type") ELSE Ok(VStr(MapStr(g[1].v, UpperAlpha, LowerAlpha)))
+                   [] e.fn = "trim" -> IF n # 1 \/ ~IsS(1) THEN Err("type") ELSE Ok(VStr(TrimR(TrimL(g[1].v))))
+                   [] e.fn = "contains" -> IF n # 2 \/ ~IsS(1) \/ ~IsS(2) THEN Err("type") ELSE Ok(VBool(StrContains(g[1].v, g[2].v)))
+                   [] e.fn = "substring" ->
+                        IF n # 3 \/ ~IsS(1) \/ ~IsI(2) \/ ~IsI(3) THEN Err("type")
+                        ELSE IF g[2].v < 0 \/ g[3].v < 0 \/ g[2].v > g[3].v \/ g[3].v > Len(g[1].v) THEN Err("bounds")
+                        ELSE Ok(VStr(SubSeq(g[1].v, g[2].v + 1, g[3].v)))
+                   [] e.fn = "split" ->
+                        IF n # 2 \/ ~IsS(1) \/ ~IsS(2) THEN Err("type")
+                        ELSE LET ps == SplitStr(g[1].v, g[2].v) IN Ok(VArr([i \in 1..Len(ps) |-> VStr(ps[i])]))
+                   [] e.fn = "join" ->
+                        IF n # 2 \/ g[1].k # "arr" \/ ~IsS(2) THEN Err("type")
+                        ELSE IF \E i \in 1..Len(g[1].e) : g[1].e[i].k \notin {"str", "int"} THEN Err("UNREP")      \* other elements print in Go's %v form
+                        ELSE Ok(VStr(JoinStrs([i \in 1..Len(g[1].e) |-> IF g[1].e[i].k = "str" THEN g[1].e[i].v ELSE IntStr(g[1].e[i].v)], g[2].v, 1))))
       [] e.e = "call" ->      \* builtins of the fragment, one argument
             LET a == Eval(e.a, sc) IN
             IF ~a.ok THEN a
@@ -218,6 +292,19 @@ EvalFields(fs, sc, i) ==
          ELSE IF HasKey(rest.v, fs[i].name) THEN Ok(VObj(<<[name |-> fs[i].name, v |-> IF Dev("VM_DupKeyFirst") THEN h.v ELSE GetKey(rest.v, fs[i].name)]>>
                                                         \o SelectSeq(rest.v.f, LAMBDA x : x.name # fs[i].name)))
          ELSE Ok(VObj(<<[name |-> fs[i].name, v |-> h.v]>> \o rest.v.f))
+
+\* a case runs in a scope of its own holding the bindings of its pattern; the guard must be a boolean
+EvalCases(cs, v, sc, i) ==
+    IF i > Len(cs) THEN Ok(VNull)
+    ELSE LET m == MatchPat(cs[i].p, v, [x \in {} |-> 0]) IN
+         IF ~m.ok THEN EvalCases(cs, v, sc, i + 1)
+         ELSE LET sc1 == Append(sc, m.b) IN
+              IF ~cs[i].hasg THEN Eval(cs[i].b, sc1)
+              ELSE LET g == Eval(cs[i].g, sc1) IN
+                   IF ~g.ok THEN g
+                   ELSE IF g.v.k # "bool" THEN Err("type")
+                   ELSE IF g.v.v THEN Eval(cs[i].b, sc1)
+                   ELSE EvalCases(cs, v, sc, i + 1)
 
 (* ---- statements ----------------------------------------------------------------------------- *)
 \* Result of running statements: [sc, ctl, val, fuel]; ctl: "next" | "break" | "continue" | "return" | "error";
@@ -340,12 +427,18 @@ Prec(op) == CASE op = "||" -> 2 [] op = "&&" -> 3
 
 FloatStr(q) == ToString(q \div 4) \o (CASE q % 4 = 0 -> ".0" [] q % 4 = 1 -> ".25" [] q % 4 = 2 -> ".5" [] q % 4 = 3 -> ".75")
 
-RECURSIVE SrcE(_, _), SrcList(_, _), SrcFields(_, _), SrcV(_), SrcVList(_, _), SrcVFields(_, _), SrcB(_, _, _)
+\* string literals: backslash, quote, line feed, tab and carriage return are written as escapes
+RECURSIVE EscStr(_)
+EscStr(s) == IF s = "" THEN ""
+             ELSE LET c == Ch(s, 1) IN
+                  (CASE c = "\\" -> "\\\\" [] c = "\"" -> "\\\"" [] c = "\n" -> "\\n" [] c = "\t" -> "\\t" [] c = "\r" -> "\\r" [] OTHER -> c)
+                  \o EscStr(SubSeq(s, 2, Len(s)))
+RECURSIVE SrcE(_, _), SrcList(_, _), SrcFields(_, _), SrcV(_), SrcVList(_, _), SrcVFields(_, _), SrcB(_, _, _), SrcP(_), SrcPList(_, _), SrcPFields(_, _), SrcMCases(_, _)
 SrcV(v) == CASE v.k = "null" -> "null"
              [] v.k = "bool" -> (IF v.v THEN "true" ELSE "false")
              [] v.k = "int" -> (IF v.v < 0 THEN "-" \o ToString(-v.v) ELSE ToString(v.v))
              [] v.k = "float" -> (IF v.q < 0 THEN "-" \o FloatStr(-v.q) ELSE FloatStr(v.q))
-             [] v.k = "str" -> "\"" \o v.v \o "\""
+             [] v.k = "str" -> "\"" \o EscStr(v.v) \o "\""
              [] v.k = "arr" -> "[" \o SrcVList(v.e, 1) \o "]"
              [] v.k = "obj" -> "{" \o SrcVFields(v.f, 1) \o "}"
 SrcVList(es, i) == IF i > Len(es) THEN "" ELSE SrcV(es[i]) \o (IF i < Len(es) THEN ", " ELSE "") \o SrcVList(es, i + 1)
@@ -365,8 +458,19 @@ SrcE(e, min) ==
       [] e.e = "field" -> SrcE(e.o, 40) \o "." \o e.n
       [] e.e = "idx" -> SrcE(e.o, 40) \o "[" \o SrcE(e.i, 0) \o "]"
       [] e.e = "call" -> e.fn \o "(" \o SrcE(e.a, 0) \o ")"
+      [] e.e = "calln" -> e.fn \o "(" \o SrcList(e.as, 1) \o ")"
+      [] e.e = "match" -> "match " \o SrcE(e.x, 40) \o " {\n" \o SrcMCases(e.cases, 1) \o "    }"
       [] e.e = "async" -> "async {\n" \o SrcB(e.b, 3, 1) \o "    }"
       [] e.e = "await" -> Wrap("await " \o SrcE(e.a, 40), min > 0)     \* await takes a whole expression: (await f) + 1
+SrcP(p) == CASE p.k = "lit" -> SrcV(p.v)
+             [] p.k = "var" -> p.n
+             [] p.k = "wild" -> "_"
+             [] p.k = "arr" -> "[" \o SrcPList(p.ps, 1) \o (IF p.rest = "" THEN "" ELSE (IF Len(p.ps) > 0 THEN ", " ELSE "") \o "..." \o p.rest) \o "]"
+             [] p.k = "obj" -> "{" \o SrcPFields(p.fs, 1) \o "}"
+SrcPList(ps, i) == IF i > Len(ps) THEN "" ELSE SrcP(ps[i]) \o (IF i < Len(ps) THEN ", " ELSE "") \o SrcPList(ps, i + 1)
+SrcPFields(fs, i) == IF i > Len(fs) THEN "" ELSE fs[i].key \o (IF fs[i].hasp THEN ": " \o SrcP(fs[i].p) ELSE "") \o (IF i < Len(fs) THEN ", " ELSE "") \o SrcPFields(fs, i + 1)
+SrcMCases(cs, i) == IF i > Len(cs) THEN ""
+                    ELSE "      " \o SrcP(cs[i].p) \o (IF cs[i].hasg THEN " when " \o SrcE(cs[i].g, 0) ELSE "") \o " => " \o SrcE(cs[i].b, 0) \o "\n" \o SrcMCases(cs, i + 1)
 SrcList(es, i) == IF i > Len(es) THEN "" ELSE SrcE(es[i], 0) \o (IF i < Len(es) THEN ", " ELSE "") \o SrcList(es, i + 1)
 SrcFields(fs, i) == IF i > Len(fs) THEN "" ELSE fs[i].name \o ": " \o SrcE(fs[i].v, 0) \o (IF i < Len(fs) THEN ", " ELSE "") \o SrcFields(fs, i + 1)
 
